@@ -140,6 +140,11 @@ def gen_content(r, layout, big=False):
             dims = [r.choice([0, 1, 2, 3, 5]) for _ in range(nd)]
             cnt = 1
             for d in dims: cnt *= d
+            # a well-formed record fits its 16-bit next-offset: keep the value part below 60 000 bytes (the limit itself is C17's)
+            while cnt * {"C": 1, "B": 1, "I": 2, "F": 4}[ty] > 60000:
+                dims[dims.index(max(dims))] = 1
+                cnt = 1
+                for d in dims: cnt *= d
             if ty == "C":
                 w = dims[0] if dims else 1
                 nstr = 1
